@@ -431,5 +431,6 @@ pub fn parts() -> Vec<Box<dyn PartDyn>> {
         shrink_budget: 30,
         confirm_runs: 2,
             fuzz: None,
+            watchdog_s: 60,
     })]
 }
